@@ -15,8 +15,17 @@ One case = one *fault history* followed by HEAL and a QUIET PERIOD:
                   nodes lagging so far that the leader has compacted past their position, submissions on any node.
                   A systematic set of directed histories (each fault class at each cluster size) precedes the
                   random stream; corpus/c05/*.json (minimised histories that caught mutants / past wedges) runs first.
-  heal            every pair (voter-voter, observer-voter) is `connect`ed (an endpoint that never noticed the loss
-                  gets a second onNodeConnected, as with the real TCP transport); nothing is held back any more.
+  heal            faults cease for a MAJORITY of the voters: every pair (voter-voter, observer-voter) of the connected
+                  side is `connect`ed (an endpoint that never noticed the loss gets a second onNodeConnected, as with
+                  the real TCP transport); nothing is held back any more.  The history parameter `down` (a role -
+                  the node that lagged, the old leader, another voter, as many voters as a strict minority allows -
+                  or a concrete list; absent = nobody) names nodes that stay cut off from everybody for the whole
+                  quiet period, either noticed by both ends (`disconnect`) or silently (`cut` after a fresh `connect`:
+                  the connected side believes in the link and sends into the void).  Down nodes keep ticking or not.
+                  EVERY oracle below looks at the connected side only (a down node that still believes it is leader
+                  is no leader view).  Directed kind `old_long_vs_new_short`: the bare majority that is left is a
+                  node with a longer log of an older term plus a node with a shorter log of a newer term (and the
+                  mirror image), nobody leader, terms grown while everybody was alone.
   quiet period    at most QUIET x raftMaxTimeout of virtual time in steps of 1/16 s: every node ticks each step,
                   every message is delivered each step.  Two fresh commands are submitted on seeded nodes (leader /
                   follower / read-only node / the node that lagged): `early` the first time one leader is named by
@@ -46,7 +55,9 @@ callbacks, `raftLastApplied`, the free state machine's list `obj.log`), evaluate
   tick:exception-escapes                           an exception left doTick / a transport callback
 
 Virtual time inside one tick: see Hist._guard (the only place where the harness touches a clock by itself).
-Reads besides the public API: `_getTerm()` (coverage only: stale leader at heal time).  No private attribute is read.
+Reads besides the public API: `_getTerm()` (coverage only: stale leader at heal time) and the log end through the
+Sim helper `sim.log_of(i)` (COVERAGE classification only: which of the connected voters has the longer log / the
+newer last term at heal time).  No oracle uses either.
 """
 import hashlib
 import json
@@ -115,6 +126,7 @@ class Hist(object):
         self.pairs = [(a, b) for n, a in enumerate(self.V) for b in self.V[n + 1:]] + \
                      [(o, v) for o in self.O for v in self.V]
         self.notes = {}
+        self.down, self.C, self.CV, self.CO = [], list(self.A), list(self.V), list(self.O)
         self.spins = 0
         self._guard()
 
@@ -203,9 +215,12 @@ class Hist(object):
         for _ in range(max_steps):
             l = self.leader(among)
             if l is not None:
-                return l
+                break
             self.run(1, DT, among)
-        return self.leader(among)
+        l = self.leader(among)
+        if l is not None:
+            self.notes.setdefault("stale", l)        # the first leader of the history = "the old leader"
+        return l
 
     def payload(self, cls="tiny"):
         self.seq += 1
@@ -283,6 +298,7 @@ def d_partition(h, var):
     if h.O and var.get("obs_with_group"):
         grp = grp + h.O[:1]
     rest = [x for x in h.A if x not in grp]
+    h.notes["lagging"] = grp[0]
     h.isolate(grp, mode)
     h.submit(L, "mid", 2)
     for g in (grp, rest):
@@ -309,6 +325,7 @@ def d_midburst(h, var):
     if L is None:
         return
     F = [v for v in h.A if v != L][var["victim"] % (len(h.A) - 1)]
+    h.notes["lagging"] = F
     h.run(3)
     a, b = (L, F) if var["direction"] == "down" else (F, L)
     h.ev("hold", a, b)
@@ -450,6 +467,7 @@ def d_compactions(h, var):
     if L is None:
         return
     F = [x for x in h.A if x != L][var["victim"] % (len(h.A) - 1)]
+    h.notes["lagging"] = F
     for rnd in range(var["rounds"]):
         l = h.leader() or L
         h.submit(l, "mid", rng.randrange(2, 6))
@@ -488,6 +506,52 @@ def d_term_inflation(h, var):
             h.ev("notice", a, b)
             h.ev("notice", b, a)
         h.run(2)
+
+
+def d_old_long_vs_new_short(h, var):
+    """the only reachable majority after the (partial) heal is a node with a LONGER log of an OLDER term and a node
+    with a SHORTER log of a NEWER term (orient = old_long), or the mirror image (orient = old_short); nobody is
+    leader any more (leaderFallbackTimeout) and terms have grown while everybody was alone.  The up-to-date rule of
+    the vote decides whether these two can ever elect anybody."""
+    h.connect_all()
+    L = h.elect()
+    if L is None:
+        return
+    h.submit(L, "tiny", 3)
+    h.run(6)
+    rest = [x for x in h.A if x != L]
+    restV = [v for v in rest if v in h.V]
+    # every message from and to L is lost; the connections stay up
+    h.isolate([L], "silent")
+    n_old, n_new = (3, 1) if var["orient"] == "old_long" else (1, 3)
+    h.submit(L, "tiny", n_old)                      # unreplicated tail of the old term
+    h.run(3, DT, [L])
+    N = None
+    for _ in range(200):
+        h.run(1, DT, rest)
+        if var.get("old_ticks", True):
+            h.run(1, DT, [L])
+        N = h.leader(restV)
+        if N is not None:
+            break
+    if N is None:
+        return
+    h.run(3, DT, rest)                              # the no-op of the newer term commits
+    h.submit(N, "tiny", n_new)
+    h.run(8, DT, rest)
+    keep = [L, N]
+    more = [v for v in restV if v != N]
+    j = var.get("third", 0)
+    while 2 * len(keep) <= len(h.V):                # fill up to a bare majority
+        keep.append(more.pop(j % len(more)))
+    keepO = h.O[:1] if (h.O and var.get("keep_obs")) else []
+    h.notes["down"] = [x for x in h.A if x not in keep and x not in keepO]
+    h.notes["lagging"] = L
+    # now nobody reaches anybody: stale leaders fall back, everybody runs elections alone, terms grow
+    for (a, b) in h.pairs:
+        if a != L and b != L:
+            h.sever(a, b, var["mode2"])
+    h.run(var["alone"], var["alone_dt"])            # every link is dead: nothing is delivered, everybody ticks
 
 
 def _deliver_recorded(h):
@@ -549,6 +613,7 @@ def d_random(h, var):
                 # lag: somebody away while the leader commits and compacts
                 if l is not None:
                     f = rng.choice([x for x in h.A if x != l])
+                    h.notes["lagging"] = f
                     h.isolate([f], rng.choice(["silent", "noticed", "inside", "outside"]))
                     h.submit(l, "mid", rng.randrange(4, 10))
                     rest = [x for x in h.A if x != f]
@@ -600,24 +665,25 @@ def d_random(h, var):
 
 GEN = {"partition": d_partition, "midburst": d_midburst, "stale_leader": d_stale_leader,
        "lag_snapshot": d_lag_snapshot, "uneven": d_uneven, "compactions": d_compactions,
-       "term_inflation": d_term_inflation, "random": d_random}
+       "term_inflation": d_term_inflation, "random": d_random, "old_long_vs_new_short": d_old_long_vs_new_short}
 
 
 # ------------------------------------------------------------------------------------------------
 # heal, quiet period, monitors
 # ------------------------------------------------------------------------------------------------
 def _leader_view(h):
-    """(leader, None) if exactly one voter reports leader and everybody names it, else (None, why)"""
+    """(leader, None) if exactly one connected voter reports leader and every connected node names it, else
+    (None, why).  Nodes that the heal left unreachable (h.down) are not looked at at all."""
     s = h.sim
-    ls = [v for v in h.V if s.objs[v]._isLeader()]
+    ls = [v for v in h.CV if s.objs[v]._isLeader()]
     if len(ls) != 1:
-        return None, "%d voters report leader: %s" % (len(ls), ls)
-    for i in h.A:
+        return None, "%d of the connected voters %s report leader: %s" % (len(ls), h.CV, ls)
+    for i in h.C:
         ptr = s.objs[i]._getLeader()
         pid = getattr(ptr, "id", ptr)
         if pid != ls[0]:
             return None, "leader is %s but %s names %r" % (ls[0], i, pid)
-    for o in h.O:
+    for o in h.CO:
         if s.objs[o]._isLeader():
             return None, "read-only node %s reports leader" % o
     return ls[0], None
@@ -627,7 +693,7 @@ def _behind(h, L):
     s = h.sim
     la = s.objs[L].raftLastApplied
     out = []
-    for i in h.A:
+    for i in h.C:
         x = s.objs[i].raftLastApplied
         if x != la:
             out.append((i, x, la))
@@ -637,7 +703,7 @@ def _behind(h, L):
 def _differ(h, L, among=None):
     s = h.sim
     ref = list(s.objs[L].log)
-    for i in (among if among is not None else h.A):
+    for i in (among if among is not None else h.C):
         if list(s.objs[i].log) != ref:
             return i, list(s.objs[i].log), ref
     return None
@@ -685,14 +751,43 @@ def scenario(repo, p, workdir=None):
     execs0 = dict((i, len(s.execs[i])) for i in h.A)
     log0 = dict((i, len(s.objs[i].log)) for i in h.A)
 
-    # ---- heal ----
+    # ---- heal: faults cease for a majority of the voters; the nodes in `down` stay unreachable for good ----
+    h.down = _resolve_down(h, p)
+    h.C = [x for x in h.A if x not in h.down]
+    h.CV = [x for x in h.V if x not in h.down]
+    h.CO = [x for x in h.O if x not in h.down]
+    assert 2 * len(h.CV) > len(h.V), "the connected voters must be a majority"
+    down_mode = p.get("down_mode", "noticed")
+    cov["down_voters"] = len(h.V) - len(h.CV)
+    cov["down_observers"] = len(h.O) - len(h.CO)
+    cov["down_mode"] = down_mode if h.down else "none"
+    cov["down_ticks"] = bool(h.down and p.get("down_ticks", True))
+    cov["down_leader_at_heal"] = any(x in lead0 for x in h.down)
+    # (classification for coverage only; the log end is read through the Sim helper, no oracle uses it)
+    ends = dict((i, s.log_of(i)[-1][:2]) for i in h.CV)
+    cov["longer_older_vs_shorter_newer"] = any(ends[a][0] > ends[b][0] and ends[a][1] < ends[b][1]
+                                               for a in h.CV for b in h.CV)
+    cov["shorter_older_vs_longer_newer"] = any(ends[a][0] < ends[b][0] and ends[a][1] < ends[b][1]
+                                               for a in h.CV for b in h.CV)
     h.hold.clear()
     n_sent0 = len(s.sent)
     t_heal = dict(s.now)
+    dset = set(h.down)
     for (a, b) in h.pairs:
+        if a in dset and b in dset:
+            continue
+        if a in dset or b in dset:
+            if down_mode == "noticed":
+                s.disconnect(a, b)
+            else:
+                if p.get("down_fresh", True):
+                    s.connect(a, b)      # both ends believe in the link ...
+                s.cut(a, b)              # ... which never carries anything again; nobody is told
+            continue
         broken = frozenset((a, b)) not in s.alive or (a, b) not in s.up or (b, a) not in s.up
         if broken or p.get("heal_all", True):
             s.connect(a, b)
+    ticking = h.C + (h.down if p.get("down_ticks", True) else [])
 
     # ---- quiet period ----
     max_steps = int(p.get("quiet", QUIET) * unit / DT)
@@ -704,7 +799,7 @@ def scenario(repo, p, workdir=None):
     first_ok = stable_since = stable_L = None
     step = changes = 0
     while step < max_steps:
-        for i in h.A:
+        for i in ticking:
             s.tick(i, DT)
         h.deliver_all()
         step += 1
@@ -747,6 +842,8 @@ def scenario(repo, p, workdir=None):
     viol = []
     L, why = _leader_view(h)
     waited = "%.2f s = %.1f raftMaxTimeout of quiet time" % (step * DT, step * DT / unit)
+    if h.down:
+        waited += " (unreachable since the heal, %s: %s)" % (down_mode, ",".join(h.down))
     if L is None:
         viol.append({"signature": "convergence:no-single-leader", "what": "%s after %s" % (why, waited)})
     elif stable_since is not None and step - stable_since < min(tail_steps, step - 1):
@@ -768,7 +865,7 @@ def scenario(repo, p, workdir=None):
     # is still settling (LEADER_CHANGED etc. leave the outcome open), but no message is lost after the heal: if
     # it was applied, its submitter must have been told something, and SUCCESS unless leadership changed under it
     e_acked = [(res, err) for (node, cid, res, err) in s.callbacks if cid == early_cid]
-    refL = L if L is not None else max(h.V, key=lambda v: (s.objs[v].raftLastApplied, v))
+    refL = L if L is not None else max(h.CV, key=lambda v: (s.objs[v].raftLastApplied, v))
     early_applied = early_cid is not None and "early" in s.objs[refL].log
     if early_applied and not e_acked:
         skipped = _skipped(h, early_node, "early")
@@ -780,7 +877,7 @@ def scenario(repo, p, workdir=None):
                              "common state of all replicas but its submitter never got a callback (%s)%s"
                              % (early_node, (early_step or 0) * DT, waited,
                                 "; the submitter never executed it: it received it inside a snapshot" if skipped else "")})
-    ref = L if L is not None else max(h.V, key=lambda v: (s.objs[v].raftLastApplied, v))
+    ref = L if L is not None else max(h.CV, key=lambda v: (s.objs[v].raftLastApplied, v))
     bh = _behind(h, ref)
     if bh:
         i = bh[0][0]
@@ -796,7 +893,7 @@ def scenario(repo, p, workdir=None):
                                 bh[0][2] - bh[0][1], s.objs[i].raftCommitIndex, waited, hints[-6:])})
     # identical state at the same applied position (a replica that is behind is reported above)
     refpos = s.objs[ref].raftLastApplied
-    df = _differ(h, ref, [i for i in h.A if s.objs[i].raftLastApplied == refpos])
+    df = _differ(h, ref, [i for i in h.C if s.objs[i].raftLastApplied == refpos])
     if df is not None:
         viol.append({"signature": "convergence:states-differ",
                      "what": "%s and %s both applied position %d, but %s holds %d commands (last %r) and %s holds %d (last %r) after %s"
@@ -822,18 +919,20 @@ def scenario(repo, p, workdir=None):
         elif t == "request_vote":
             votes += 1
     # commands that entered a node's state after the heal without being executed there came by snapshot
-    by_snapshot = [i for i in h.A if len(s.objs[i].log) - log0[i] > len(s.execs[i]) - execs0[i]]
+    by_snapshot = [i for i in h.C if len(s.objs[i].log) - log0[i] > len(s.execs[i]) - execs0[i]]
     cov.update({"snapshot_chunks_after_heal": chunks, "snapshots_completed_after_heal": last_chunks,
                 "state_installed_by_snapshot": len(by_snapshot), "reset_replies_after_heal": resets,
                 "entry_batches_after_heal": appends, "request_votes_after_heal": votes,
                 "post_node": "leader" if post_node == L else ("observer" if post_node in h.O else "follower"),
+                "down": list(h.down),
                 "t_leader": t_leader, "t_sync": t_sync, "t_ack": t_ack,
                 "early": None if early_cid is None else (FAIL_NAMES.get(e_acked[0][1], e_acked[0][1]) if e_acked else "none"),
                 "early_applied": bool(early_applied), "leader_changes": changes, "quiet_s": step * DT,
                 "final_applied": s.objs[ref].raftLastApplied, "final_commands": len(s.objs[ref].log),
                 "t_leader_bucket": _bucket(t_leader, unit) if t_leader is not None else ">40",
                 "t_sync_bucket": _bucket(t_sync, unit) if t_sync is not None else ">40"})
-    return {"viol": viol, "events": h.events, "cov": cov, "resolved": {"early": early_node, "post": post_node}}
+    return {"viol": viol, "events": h.events, "cov": cov,
+            "resolved": {"early": early_node, "post": post_node, "down": list(h.down)}}
 
 
 def _skipped(h, node, x):
@@ -842,22 +941,66 @@ def _skipped(h, node, x):
     return x in s.objs[node].log and not any(c == x for (_, c) in s.execs[node])
 
 
+def _resolve_down(h, p):
+    """the nodes the heal leaves cut off from everybody: a concrete list (replays) or a role resolved on the live
+    history; always strictly a minority of the voters (observers may be down as well)"""
+    spec = p.get("down")
+    if not spec or spec == "none":
+        return []
+    k = p.get("post_k", 0)
+    nv = len(h.V)
+    if isinstance(spec, (list, tuple)):
+        cand = list(spec)
+    else:
+        roles = [h.notes.get("lagging"), h.notes.get("stale")]
+        if spec == "notes":
+            cand = list(h.notes.get("down") or [])
+            if not cand:
+                return []                                            # the generator gave up before the partition
+        elif spec == "obs":
+            return [h.O[k % len(h.O)]] if h.O else []
+        elif spec == "lagging":
+            cand = [roles[0]]
+        elif spec == "stale":
+            cand = [roles[1]]
+        elif spec == "max":
+            cand = [h.V[(k + j) % nv] for j in range((nv - 1) // 2)]
+        else:                                                       # "other": a voter with no role in the history
+            free = [v for v in h.V if v not in roles] or h.V
+            cand = [free[k % len(free)]]
+        if not [x for x in cand if x in h.A]:
+            cand = [h.V[k % nv]]
+        if p.get("down_obs") and h.O:
+            cand.append(h.O[k % len(h.O)])
+    out, n = [], 0
+    for x in cand:
+        if x not in h.A or x in out:
+            continue
+        if x in h.V:
+            if n >= (nv - 1) // 2:
+                continue
+            n += 1
+        out.append(x)
+    return out
+
+
 def _post_target(h, p, L, which="post"):
+    """a node of the connected side"""
     want = p.get("post", "leader") if which == "post" else p.get("early", "follower")
     k = p.get("post_k", 0) + (0 if which == "post" else 1)
-    if want in h.A:
+    if want in h.C:
         return want                          # a concrete node (replays of shrunk histories)
     if want == "lagging":
         want = h.notes.get("lagging", "follower")
-        if want in h.A and want != L:
+        if want in h.C and want != L:
             return want
-    if want == "observer" and h.O:
-        return h.O[k % len(h.O)]
-    if want in ("follower", "observer"):
-        fs = [v for v in h.V if v != L]
+    if want == "observer" and h.CO:
+        return h.CO[k % len(h.CO)]
+    if want in ("follower", "observer") or want in h.A:
+        fs = [v for v in h.CV if v != L]
         if fs:
             return fs[k % len(fs)]
-    return L if L is not None else h.V[k % len(h.V)]
+    return L if L is not None else h.CV[k % len(h.CV)]
 
 
 # ------------------------------------------------------------------------------------------------
@@ -883,6 +1026,8 @@ def draw_conf(rng, kind=None):
         c["logCompactionBatchSize"] = rng.choice([16, 40, 100])
     if kind == "midburst":
         c["appendEntriesBatchSizeBytes"] = rng.choice([100, 200, 400])
+    if kind == "old_long_vs_new_short":
+        c["leaderFallbackTimeout"] = rng.choice([1.0, 2.0])          # stale leaders must step down while alone
     return c
 
 
@@ -892,11 +1037,14 @@ def directed_params(rng):
     k = 0
     for nv in (2, 3, 4, 5):
         for kind in ("partition", "midburst", "stale_leader", "lag_snapshot", "uneven", "compactions", "term_inflation"):
-            for rep in range(2):
+            # with 3+ voters every kind is healed once completely and once with each role left unreachable
+            for rep4 in range(2 if nv == 2 else 4):
+                rep = rep4 % 2
                 k += 1
                 no = [0, 1, 2, 1][(k + rep) % 4]
                 if kind == "lag_snapshot" and nv == 2:
                     no = max(no, 1)
+                down = ["none", "lagging", "stale", "other"][(rep4 + nv) % 4] if nv > 2 else "none"
                 var = {}
                 if kind == "partition":
                     var = {"mode": modes[(k + rep) % 4], "with_leader": rep == 0, "rounds": rng.choice([2, 4, 6]),
@@ -925,18 +1073,36 @@ def directed_params(rng):
                             "seed": rng.randrange(10 ** 6), "post": ["leader", "follower", "observer"][(k + rep) % 3],
                             "early": ["lagging", "follower", "observer", "leader"][(k // 2 + rep) % 4],
                             "post_k": rng.randrange(4), "heal_all": rng.random() < 0.7,
-                            "dumpfile": kind in ("lag_snapshot", "compactions") and rng.random() < 0.35})
+                            "dumpfile": kind in ("lag_snapshot", "compactions") and rng.random() < 0.35,
+                            "down": down, "down_mode": ["noticed", "silent"][(k + nv) % 2], "down_ticks": k % 3 != 0,
+                            "down_obs": no > 0 and k % 4 == 0, "down_fresh": k % 5 != 0})
+    # the two log shapes a bare majority can be left with
+    k = 0
+    for nv in (3, 5):
+        for orient in ("old_long", "old_short"):
+            for mode2 in ("silent", "noticed"):
+                k += 1
+                conf = draw_conf(rng, "old_long_vs_new_short")
+                out.append({"kind": "old_long_vs_new_short", "nv": nv, "no": [0, 1][k % 2], "conf": conf,
+                            "var": {"orient": orient, "mode2": mode2, "alone": rng.choice([40, 60, 80]), "alone_dt": 0.25,
+                                    "third": rng.randrange(4), "keep_obs": k % 4 == 1, "old_ticks": True},
+                            "seed": rng.randrange(10 ** 6), "post": ["leader", "follower"][k % 2], "early": "lagging",
+                            "post_k": rng.randrange(4), "heal_all": True, "dumpfile": False,
+                            "down": "notes", "down_mode": ["silent", "noticed"][(k // 2) % 2], "down_ticks": k % 3 != 0,
+                            "down_fresh": True})
     return out
 
 
 def random_params(rng, n):
     out = []
     kinds = ["random", "random", "random", "lag_snapshot", "stale_leader", "partition", "midburst", "uneven",
-             "compactions", "term_inflation"]
+             "compactions", "term_inflation", "old_long_vs_new_short"]
     modes = ["noticed", "silent", "inside", "outside"]
     for _ in range(n):
         kind = rng.choice(kinds)
         nv = rng.choice([2, 3, 3, 4, 5, 5])
+        if kind == "old_long_vs_new_short":
+            nv = rng.choice([3, 4, 5])
         no = rng.choice([0, 0, 1, 1, 2])
         if kind == "lag_snapshot" and nv == 2:
             no = max(no, 1)
@@ -961,14 +1127,26 @@ def random_params(rng, n):
             var = {"rounds": rng.randrange(3, 12), "held": rng.randrange(1, 4)}
         elif kind == "compactions":
             var = {"rounds": rng.randrange(3, 10), "victim": rng.randrange(8)}
+        elif kind == "old_long_vs_new_short":
+            var = {"orient": rng.choice(["old_long", "old_long", "old_short"]), "mode2": rng.choice(["silent", "noticed"]),
+                   "alone": rng.choice([20, 40, 80]), "alone_dt": rng.choice([0.125, 0.25, 0.5]), "third": rng.randrange(4),
+                   "keep_obs": rng.random() < 0.5, "old_ticks": rng.random() < 0.8}
         else:
             var = {"who": rng.choice(["follower", "leader"]), "mode": rng.choice(["silent", "outside"]),
                    "rounds": rng.randrange(2, 10), "late_notice": rng.random() < 0.4}
+        if kind == "old_long_vs_new_short":
+            down = "notes" if rng.random() < 0.85 else "none"
+        else:
+            down = rng.choice(["lagging", "stale", "other", "max"]) if (nv > 2 and rng.random() < 0.36) else "none"
+        if down == "none" and no and rng.random() < 0.05:
+            down = "obs"                                # only a read-only node stays away
         out.append({"kind": kind, "nv": nv, "no": no, "conf": draw_conf(rng, kind), "var": var,
                     "seed": rng.randrange(10 ** 6), "post": rng.choice(["leader", "follower", "follower", "observer"]),
                     "early": rng.choice(["lagging", "lagging", "follower", "observer", "leader"]),
                     "post_k": rng.randrange(4), "heal_all": rng.random() < 0.7,
-                    "dumpfile": rng.random() < 0.15})
+                    "dumpfile": rng.random() < 0.15,
+                    "down": down, "down_mode": rng.choice(["noticed", "silent"]), "down_ticks": rng.random() < 0.6,
+                    "down_obs": no > 0 and rng.random() < 0.3, "down_fresh": rng.random() < 0.7})
     return out
 
 
@@ -1085,7 +1263,9 @@ def run(ctx):
            "elections_after_heal_histories": 0, "dumpfile_histories": 0, "auto_compaction_histories": 0,
            "small_batch_histories": 0, "fallback_le_2s_histories": 0, "fault_events": 0, "submissions": 0,
            "compactions": 0, "corpus_histories": 0, "planned": len(ps), "errors": 0,
-           "violating_histories": {}, "early_command_outcome": {}}
+           "violating_histories": {}, "early_command_outcome": {},
+           "healed_with_minority_down": {"histories": 0, "by_kind": {}}, "connected_log_shapes_at_heal": {},
+           "old_long_vs_new_short": {}}
     distinct = set()
     viols, sigs = [], set()
     errors = []
@@ -1103,6 +1283,23 @@ def run(ctx):
         _inc(cov["by_voters"], c["nv"])
         _inc(cov["by_observers"], c["no"])
         _inc(cov["post_node"], c["post_node"])
+        if c["down_voters"]:
+            cov["healed_with_minority_down"]["histories"] += 1
+            _inc(cov["healed_with_minority_down"], c["down_mode"])
+            _inc(cov["healed_with_minority_down"], "down_nodes_tick" if c["down_ticks"] else "down_nodes_frozen")
+            _inc(cov["healed_with_minority_down"], "voters_%d_down_%d" % (c["nv"], c["down_voters"]))
+            if c["down_leader_at_heal"]:
+                _inc(cov["healed_with_minority_down"], "a_down_node_was_leader_at_heal")
+            _inc(cov["healed_with_minority_down"]["by_kind"], c["kind"])
+        if c["down_observers"]:
+            _inc(cov["healed_with_minority_down"], "histories_with_observer_down")
+        for k_ in ("longer_older_vs_shorter_newer", "shorter_older_vs_longer_newer"):
+            if c[k_]:
+                _inc(cov["connected_log_shapes_at_heal"], k_)
+                if c["kind"] == "old_long_vs_new_short":
+                    _inc(cov["old_long_vs_new_short"], k_)
+                    if c["down_voters"]:
+                        _inc(cov["old_long_vs_new_short"], k_ + "_bare_majority_%d" % c["nv"])
         _inc(cov["early_command_outcome"], "%s/%s" % (c["early"], "applied" if c["early_applied"] else "not-applied"))
         _inc(cov["t_leader_in_raftMaxTimeouts"], c["t_leader_bucket"])
         _inc(cov["t_sync_in_raftMaxTimeouts"], c["t_sync_bucket"])
@@ -1144,6 +1341,7 @@ def run(ctx):
             for k_ in ("early", "post"):
                 if r["resolved"].get(k_):
                     q[k_] = r["resolved"][k_]
+            q["down"] = list(r["resolved"].get("down") or [])
             ev = r["events"]
             n0 = len(ev)
             if time.time() - t0 < ctx.budget_s * 0.8:
@@ -1183,6 +1381,16 @@ def run(ctx):
         floors.append("histories with read-only nodes too few")
     if len(cov["post_node"]) < 3:
         floors.append("post-heal submission targets %s" % sorted(cov["post_node"]))
+    md = cov["healed_with_minority_down"]
+    if md["histories"] < ctx.scale(40, 1000) or md.get("noticed", 0) < ctx.scale(12, 300) or md.get("silent", 0) < ctx.scale(12, 300):
+        floors.append("healed with a minority down: %d (noticed %d, silent %d)" % (md["histories"], md.get("noticed", 0), md.get("silent", 0)))
+    if len(md["by_kind"]) < 8:
+        floors.append("kinds healed with a minority down: %s" % sorted(md["by_kind"]))
+    ol = cov["old_long_vs_new_short"]
+    for k_ in ("longer_older_vs_shorter_newer_bare_majority_3", "longer_older_vs_shorter_newer_bare_majority_5",
+               "shorter_older_vs_longer_newer_bare_majority_3", "shorter_older_vs_longer_newer_bare_majority_5"):
+        if ol.get(k_, 0) < ctx.scale(1, 10):
+            floors.append("old_long_vs_new_short: shape %s reached %d times" % (k_, ol.get(k_, 0)))
     if floors and not viols:
         res["inconclusive"] = "coverage floor missed: " + "; ".join(floors)
     return res
